@@ -209,3 +209,47 @@ func RunFresh(root string, args []string) *RunResult {
 	}
 	return res
 }
+
+// OneShotSeqMain runs several batch lines one after the other in ONE session of this process and prints the results.
+func OneShotSeqMain(root string, jsonLines string) {
+	var lines [][]string
+	if err := json.Unmarshal([]byte(jsonLines), &lines); err != nil {
+		fmt.Fprintln(os.Stderr, "oneshot-seq:", err)
+		os.Exit(2)
+	}
+	session := hermes.NewHermesSession()
+	var out []*RunResult
+	for i, a := range lines {
+		out = append(out, RunSession(session, root, a, fmt.Sprintf("[%d]", i), nil))
+	}
+	session.Close()
+	b, _ := json.Marshal(out)
+	os.Stdout.WriteString("\n@@ONESHOT@@")
+	os.Stdout.Write(b)
+}
+
+// RunSeqFresh runs the lines one after the other in one session of a FRESH process (nothing a worker process executed
+// before can reach them, not even through package-level state).
+func RunSeqFresh(root string, lines [][]string) ([]*RunResult, error) {
+	exe, err := os.Executable()
+	if err != nil {
+		return nil, err
+	}
+	js, _ := json.Marshal(lines)
+	cmd := exec.Command(exe, "oneshot-seq", root, string(js))
+	cmd.Env = append(os.Environ(), "GOMAXPROCS=2")
+	var errb bytes.Buffer
+	cmd.Stderr = &errb
+	out, err := cmd.Output()
+	if err != nil {
+		return nil, fmt.Errorf("fresh process died: %v: %.300s", err, errb.String())
+	}
+	if i := bytes.LastIndex(out, []byte("@@ONESHOT@@")); i >= 0 {
+		out = out[i+len("@@ONESHOT@@"):]
+	}
+	var res []*RunResult
+	if err := json.Unmarshal(out, &res); err != nil {
+		return nil, fmt.Errorf("fresh process output: %v: %.200s", err, out)
+	}
+	return res, nil
+}
